@@ -1,31 +1,60 @@
 #!/usr/bin/env python3
-"""Re-runs the quick check of its property against every stored seeded change (scratch copies of /repo).
+"""Re-runs the quick checks against every stored seeded change (scratch copies of /repo, patch applied there).
 
-  python3 seedall.py [name-prefix]     prints one line per change; exit 1 if any is no longer detected
+  python3 seedall.py [name-prefix] [--update]
+
+Each change is checked with the property it was written against and then with the properties listed under
+"also_check" in its meta.json, until one reports it. One line per change; exit 1 if a change is reported by
+none of them, unless its meta.json carries an "assessment" (a change judged not observable, see DESIGN §14).
+--update rewrites detected_by / first_violation_lines in meta.json from what was seen.
 """
-import glob, json, os, shutil, subprocess, sys, tempfile
+import glob, json, os, re, shutil, subprocess, sys, tempfile
 VERIF = os.path.dirname(os.path.abspath(__file__))
-ENV = dict(os.environ, GOFLAGS="-mod=mod", GOPROXY="off", GOSUMDB="off", GOTOOLCHAIN="local")
-prefix = sys.argv[1] if len(sys.argv) > 1 else ""
+args = [a for a in sys.argv[1:] if not a.startswith("--")]
+update = "--update" in sys.argv
+prefix = args[0] if args else ""
 missed = 0
 for d in sorted(glob.glob(os.path.join(VERIF, "seeded", prefix + "*"))):
-    meta = json.load(open(os.path.join(d, "meta.json")))
+    mp = os.path.join(d, "meta.json")
+    meta = json.load(open(mp))
     scratch = tempfile.mkdtemp(prefix="seedall-", dir="/dev/shm" if os.access("/dev/shm", os.W_OK) else None)
     try:
         subprocess.check_call(["rsync", "-a", "--exclude", ".git", "/repo/", scratch + "/"])
         p = subprocess.run(["patch", "-p1", "-s", "--fuzz=3", "-i", os.path.join(d, "patch.diff")], cwd=scratch, capture_output=True, text=True)
         if p.returncode != 0:
-            print("%-8s PATCH-FAILED" % meta["name"], flush=True)
+            print("%-9s PATCH-FAILED" % meta["name"], flush=True)
             missed += 1
             continue
         env = dict(os.environ, VERIF_REPO_DIR=scratch)
-        pr = subprocess.run([sys.executable, os.path.join(VERIF, "check.py"), meta["property"], "quick"], env=env, capture_output=True, text=True)
-        first = next((l for l in pr.stdout.splitlines() if l.startswith("VIOLATION")), "")
-        import re
-        m = re.search(r"oracle=(\S+) key=(\S+)", first)
-        print("%-8s rc=%d %s" % (meta["name"], pr.returncode, (m.group(1) + "/" + m.group(2)) if m else pr.stdout.strip().splitlines()[-1][:120]), flush=True)
-        if pr.returncode != 1:
-            missed += 1
+        detected, lines, rcs = [], {}, {}
+        for prop in [meta["property"]] + [q for q in meta.get("also_check", []) if q != meta["property"]]:
+            pr = subprocess.run([sys.executable, os.path.join(VERIF, "check.py"), prop, "quick"], env=env, capture_output=True, text=True)
+            first = next((l for l in pr.stdout.splitlines() if l.startswith("VIOLATION")), "")
+            rcs[prop] = pr.returncode
+            lines[prop] = [re.sub(r"replay=\S+", "", first)[:260]] if first else []
+            if pr.returncode == 1:
+                detected.append(prop)
+            elif pr.returncode != 0:
+                lines[prop] = [(pr.stdout.strip().splitlines() or ["?"])[-1][:200]]
+        m = None
+        for prop in detected:
+            m = re.search(r"oracle=(\S+) key=(\S+)", lines[prop][0])
+            if m:
+                break
+        note = ""
+        if not detected:
+            if meta.get("assessment"):
+                note = "not reported; assessed: " + meta["assessment"][:90]
+            else:
+                missed += 1
+                note = "NOT DETECTED " + json.dumps(rcs)
+        print("%-9s %-12s %s" % (meta["name"], ",".join(detected) or "-", (m.group(1) + "/" + m.group(2)) if m else note), flush=True)
+        if update:
+            meta["detected_by"] = detected
+            meta["first_violation_lines"] = lines
+            meta.setdefault("what_was_run", {})["checks"] = {
+                q: "python3 check.py %s quick (VERIF_REPO_DIR=<scratch copy with the patch>, VERIF_SCALE=1): exit %d" % (q, rc) for q, rc in rcs.items()}
+            json.dump(meta, open(mp, "w"), indent=1)
     finally:
         shutil.rmtree(scratch, ignore_errors=True)
 print("not detected: %d" % missed)
